@@ -5,8 +5,13 @@ package reg
 
 import (
 	"fmt"
+	"runtime"
+	"sync"
+
+	"github.com/cinar/indicator/v2/helper"
 
 	"pgregory.net/rapid"
+	"verif/harness/census"
 	"verif/harness/ref"
 )
 
@@ -37,9 +42,21 @@ type Config struct {
 	// Alt selects the "plain constructor, then assign the exported fields" route where the
 	// registry knows one (reg/alt.go).
 	Alt bool `json:"alt,omitempty"`
+	// PrevP / PrevF / PrevN (Alt route only): the instance was first configured with PrevP /
+	// PrevF and ran one Compute over PrevN canned values before the exported fields were
+	// assigned to P / F - an instance that is reconfigured between two computations, which the
+	// exported fields invite. Anything Compute caches on the receiver shows here.
+	PrevP []int     `json:"prev_p,omitempty"`
+	PrevF []float64 `json:"prev_f,omitempty"`
+	PrevN int       `json:"prev_n,omitempty"`
 }
 
-func (c Config) String() string { return fmt.Sprintf("p=%v f=%v", c.P, c.F) }
+func (c Config) String() string {
+	if c.PrevP != nil {
+		return fmt.Sprintf("p=%v f=%v (reconfigured from p=%v f=%v after %d values)", c.P, c.F, c.PrevP, c.PrevF, c.PrevN)
+	}
+	return fmt.Sprintf("p=%v f=%v", c.P, c.F)
+}
 
 // In maps an input field name to its reference series.
 type In map[string]ref.S
@@ -115,6 +132,19 @@ func GenPeriod(t *rapid.T, p Param) int {
 
 // GenConfig draws an admissible configuration; small restricts periods to 1..maxSmall.
 func (ind Ind) GenConfig(t *rapid.T, maxSmall int) Config {
+	c := ind.genPF(t, maxSmall)
+	if _, ok := alt[ind.Name]; ok && rapid.IntRange(0, 2).Draw(t, "field_route") == 0 {
+		c.Alt = true
+		if rapid.Bool().Draw(t, "reconfigured") {
+			prev := ind.genPF(t, maxSmall)
+			c.PrevP, c.PrevF = prev.P, prev.F
+			c.PrevN = rapid.IntRange(0, 40).Draw(t, "prev_n")
+		}
+	}
+	return c
+}
+
+func (ind Ind) genPF(t *rapid.T, maxSmall int) Config {
 	c := Config{P: make([]int, len(ind.Params))}
 	if len(ind.Params) > 0 && rapid.IntRange(0, 19).Draw(t, "default_cfg") == 0 {
 		for i, p := range ind.Params {
@@ -136,9 +166,6 @@ func (ind Ind) GenConfig(t *rapid.T, maxSmall int) Config {
 	}
 	if ind.Fix != nil {
 		ind.Fix(&c)
-	}
-	if _, ok := alt[ind.Name]; ok && rapid.IntRange(0, 2).Draw(t, "field_route") == 0 {
-		c.Alt = true
 	}
 	return c
 }
@@ -192,6 +219,43 @@ func ByName(name string) (Ind, bool) {
 	return Ind{}, false
 }
 
+// warm runs one complete computation over n canned values on every input, discards the result and
+// waits until the goroutines of that pipeline are gone: closing of the outputs does not mean that
+// the upstream stages have finished (they are drained in the background), and assigning the
+// exported fields while they still read them would be the caller's data race, not the library's.
+func warm(compute func([]C) []C, nin, n int) {
+	base := census.Baseline()
+	defer func() {
+		for spin := 0; spin < 1000000; spin++ {
+			v, _ := base.Verdict()
+			if v == census.None {
+				return
+			}
+			if v == census.Stuck {
+				if stuck, _ := base.StableStuck(); stuck {
+					return // leaked by the first computation: the caller's census reports it
+				}
+			}
+			runtime.Gosched()
+		}
+	}()
+	ins := make([]C, nin)
+	for i := range ins {
+		vals := make([]float64, n)
+		for j := range vals {
+			vals[j] = 10 + float64((j*7+i*3)%11)/2
+		}
+		ins[i] = helper.SliceToChan(vals)
+	}
+	outs := compute(ins)
+	var wg sync.WaitGroup
+	for _, o := range outs {
+		wg.Add(1)
+		go func(o C) { defer wg.Done(); helper.Drain(o) }(o)
+	}
+	wg.Wait()
+}
+
 // All returns every registry entry.
 func All() []Ind {
 	var out []Ind
@@ -202,9 +266,16 @@ func All() []Ind {
 	for i := range out {
 		if a, ok := alt[out[i].Name]; ok {
 			plain := out[i].Build
+			nin := len(out[i].Inputs)
 			out[i].Build = func(c Config) (func([]C) []C, int) {
 				if c.Alt {
-					return a(c)
+					inst := a()
+					if c.PrevP != nil && !raceDetector {
+						inst.set(Config{P: c.PrevP, F: c.PrevF})
+						warm(inst.compute, nin, c.PrevN)
+					}
+					inst.set(c)
+					return inst.compute, inst.idle()
 				}
 				return plain(c)
 			}
